@@ -48,6 +48,7 @@ fn main() {
         "pipe" => drivers::pipe::drive(&rest),
         "c15" => drivers::c15::drive(&rest),
         "c16" => drivers::c16::drive(&rest),
+        "cstr" => drivers::cstr::drive(&rest),
         other => {
             eprintln!("unknown command {other}");
             2
